@@ -848,6 +848,9 @@ func init() {
 				{Part: "C19/sync", Build: "plain", Shards: 2, BudgetS: 60, Procs: 1, Label: "File.Sync extension guard"},
 				{Part: "C19/setext", Build: "plain", Shards: 8, BudgetS: 80, Procs: 1, Label: "SetSFTPExtensions sequences vs VERSION bytes, advertised => served"},
 				{Part: "C19/unknown", Build: "plain", Shards: 4, BudgetS: 60, Procs: 1, Label: "other extended names => OP_UNSUPPORTED, session continues"},
+				// served also when two requests of one extension are in flight at once: every schedule with <= d deviations
+				{Part: "C19/sched", Build: "instr-w2", Args: map[string]string{"server": "os", "progs": "extpair", "bound": map[bool]string{false: "2", true: "3"}[tier == "thorough"]}, Shards: 8, BudgetS: 100,
+					Label: "os W=2 two pipelined requests of each advertised extension, under the scheduler"},
 			}
 		},
 	})
